@@ -1303,9 +1303,19 @@ def r165(ctx, repo):
     ok = sm is not None and expand(f, sm) in (
         "downsample", "int(downsample)") and rm is not None \
         and expand(f, rm) == "remove_invalid"
-    ctx.ob("R16.5", ok, "request size and invalid-handling are forwarded"
-           if ok else "samples / remove_invalid are not forwarded unchanged",
-           node=c, label="scatter forwards request")
+    reb = [b_ for b_ in assigns(f, "remove_invalid")] + [
+        b_ for b_ in assigns(f, "downsample") if not (
+            isinstance(b_, ast.Assign) and txt(b_.value) in (
+                "int(downsample)", "downsample"))]
+    ctx.ob("R16.5", ok and not reb,
+           "request size and invalid-handling reach the sampler as given"
+           if ok and not reb else
+           (f"`{short(reb[0], 50)}` changes the request before it reaches "
+            "the sampler: e.g. invalid values produced by the axis scaling "
+            "(log of non-positive data) are no longer removed although "
+            "remove_invalid=True was asked for" if reb else
+            "samples / remove_invalid are not forwarded unchanged"),
+           node=reb[0] if reb else c, label="scatter forwards request")
     # the data handed out are not modified in place – nor through an alias
     # (`_apply_scale` can return its argument for a linear axis)
     scale_f = repo.func(CORE, "RTDCBase._apply_scale")
@@ -1987,6 +1997,13 @@ MUTANTS = [
     ("log transform in single precision (seeded C16_14)", CORE,
      ("                b = np.log(a)\n",
       "                b = np.log(a, dtype=np.float32)\n"), "R16.5"),
+    ("scatter: remove_invalid overridden by the filter setting "
+     "(seeded C16_16)", CORE,
+     ("        _, _, idx = downsampling.downsample_grid(xs, ys,\n",
+      "        if self.config[\"filtering\"][\"remove invalid events\"]:\n"
+      "            remove_invalid = False\n"
+      "        _, _, idx = downsampling.downsample_grid(xs, ys,\n"),
+     "R16.5"),
     ("scatter: y scaled with the x scale", CORE,
      ("        ys = RTDCBase._apply_scale(y, yscale, yax)\n",
       "        ys = RTDCBase._apply_scale(y, xscale, yax)\n", 0), "R16.5"),
